@@ -49,8 +49,9 @@ func init() {
 }
 
 type topField struct {
-	name     string
-	position *ast.Position
+	name         string
+	responseName string
+	position     *ast.Position
 }
 
 func retrieveTopFieldNames(selectionSet ast.SelectionSet) []*topField {
@@ -61,9 +62,14 @@ func retrieveTopFieldNames(selectionSet ast.SelectionSet) []*topField {
 		for _, selection := range selectionSet {
 			switch selection := selection.(type) {
 			case *ast.Field:
+				responseName := selection.Name
+				if selection.Alias != "" {
+					responseName = selection.Alias
+				}
 				fields = append(fields, &topField{
-					name:     selection.Name,
-					position: selection.GetPosition(),
+					name:         selection.Name,
+					responseName: responseName,
+					position:     selection.GetPosition(),
 				})
 			case *ast.InlineFragment:
 				walk(selection.SelectionSet)
@@ -84,10 +90,11 @@ func retrieveTopFieldNames(selectionSet ast.SelectionSet) []*topField {
 	seen := make(map[string]bool, len(fields))
 	uniquedFields := make([]*topField, 0, len(fields))
 	for _, field := range fields {
-		if !seen[field.name] {
+		// two selections make one root field only if they have the same response name
+		if !seen[field.responseName] {
 			uniquedFields = append(uniquedFields, field)
 		}
-		seen[field.name] = true
+		seen[field.responseName] = true
 	}
 	return uniquedFields
 }
